@@ -5,6 +5,7 @@ package dragonboat
 import (
 	"fmt"
 	"os"
+	"strings"
 	"testing"
 
 	"github.com/lni/dragonboat/v4/internal/raft"
@@ -237,4 +238,36 @@ func (c *nxCluster) summary() string {
 		out += fmt.Sprintf("%c%d:%s ", op.kind, op.at, op.status)
 	}
 	return out
+}
+
+// TestVerifNodexCongruence probes the canonical state description of the
+// configurations of one part (VERIF_NODEX_PART): see verifkit.CongruenceProbe.
+func TestVerifNodexCongruence(t *testing.T) {
+	if os.Getenv("VERIF_CONGRUENCE") == "" {
+		t.Skip("development aid")
+	}
+	nxSilence()
+	n, depth := 1500, 1
+	fmt.Sscanf(os.Getenv("VERIF_CONGRUENCE_STATES"), "%d", &n)
+	fmt.Sscanf(os.Getenv("VERIF_CONGRUENCE_DEPTH"), "%d", &depth)
+	part := os.Getenv("VERIF_NODEX_PART")
+	for _, cfg := range nxConfigs(part, false) {
+		if f := os.Getenv("VERIF_ONLY_CFG"); f != "" && !strings.Contains(cfg.Name, f) {
+			continue
+		}
+		cfg := cfg
+		mk := func() *nxCluster {
+			c := newNxCluster(cfg)
+			if part == "c01" {
+				c.linCheck = func(c *nxCluster) string { return c.linearizable() }
+			}
+			return c
+		}
+		desc := mk()
+		states, compared, bad := verifkit.CongruenceProbe(func() verifkit.Instance { return nxInst{mk()} }, desc.describe, n, depth)
+		fmt.Printf("CONGRUENCE %s: states=%d pairs=%d disagreements=%d\n", cfg.Name, states, compared, len(bad))
+		for _, b := range bad {
+			fmt.Println(b)
+		}
+	}
 }
